@@ -48,7 +48,7 @@ def key_of(prop_ops, pre, step, clause):
     extra = ''
     if op == 'mix_from':
         extra = ':n=%d,eb=%s' % (len(a['ins']), a['eb'])
-    if op == 'copy_flow':
+    if op in ('copy_flow', 'copy_flow_multi'):
         extra = ':all=%s,remove=%s,excl=%s' % (a['all'], a['remove'], a['excl'])
     if op == 'link_with':
         extra = ':flow=%s,phase=%s,TP=%s' % (a['flow'], a['phase'], a['TP'])
@@ -78,7 +78,7 @@ def run_steps(universe, states, rng, n_ops, prefix, ops):
         directed = list(st.pop('directed', [])) if isinstance(st, dict) else []
         for _ in range(n_ops + len(directed)):
             op, a = directed.pop() if directed else ds.random_op(universe, rng, st, ops)
-            if op not in ops:
+            if op not in ops and op != 'copy_flow_multi':
                 continue
             w = ds.World(universe)
             w.set_state(st)
@@ -178,7 +178,7 @@ def judge(ctx, uname, traces, verdicts, stats, focus):
                           '%s %r: %s (exc=%s %s)' % (s['op'], s['a'], clause, s['obs']['exc'], s['obs'].get('msg', '')), rp)
 
 
-def run(ctx, prop, mc, focus, shaping, sim_len=30, extra_paths=None):
+def run(ctx, prop, mc, focus, shaping, sim_len=30, extra_paths=None, extra_universe='mc3'):
     """mc: dict(names=..., ops=..., phasesets=..., depth=..., props=[...]); focus: operations this property owns;
     shaping: additional operations used to reach interesting states (violations on them are left to their owner)."""
     rng = random.Random(ctx.seed)
@@ -212,7 +212,7 @@ def run(ctx, prop, mc, focus, shaping, sim_len=30, extra_paths=None):
         rstates = [random_state(u, rng) for _ in range(120 if quick else 3000)]
         groups.append((un, run_steps(u, rstates, rng, 10 if quick else 25, 'T' + un[0], list(focus))))
     if extra_paths:
-        groups.append(('mc3', run_paths(ds.UNIVERSES['mc3'], extra_paths(rng, 150 if quick else 4000), 'D')))
+        groups.append((extra_universe, run_paths(ds.UNIVERSES[extra_universe], extra_paths(rng, 150 if quick else 4000), 'D')))
     groups.append(('big', run_random(ds.UNIVERSES['big'], rng, 60 if quick else 1500, sim_len, 'R', ops_all)))
     groups.append(('mc3', run_random(ds.UNIVERSES['mc3'], rng, 40 if quick else 1000, sim_len, 'Q', ops_all)))
     n_tr = 0
